@@ -99,6 +99,103 @@ theorem readAllE_eq (X : Cipher) (e : Bool) : ∀ (cs : List Bytes) (s : Stream)
     | nil => simp [readAllE, readAll, readOne_eq]
     | cons d ds => simp only [readAllE, readAll, readOne_eq, ih]
 
+/-! ### The byte ranges read from the source are MTProto's -/
+
+theorem layout_facts :
+    Facts.C18.encKeyLo = 8 ∧ Facts.C18.encKeyHi = 40 ∧ Facts.C18.encIVLo = 40 ∧ Facts.C18.encIVHi = 56 ∧
+    Facts.C18.revLo = 8 ∧ Facts.C18.revHi = 56 ∧ Facts.C18.decKeyLo = 0 ∧ Facts.C18.decKeyHi = 32 ∧
+    Facts.C18.decIVLo = 32 ∧ Facts.C18.decIVHi = 48 ∧ Facts.C18.secretCutLo = 0 ∧ Facts.C18.secretCutHi = 16 ∧
+    Facts.C18.secretMin = 16 ∧ Facts.C18.tagLo = 56 ∧ Facts.C18.tagHi = 60 ∧ Facts.C18.dcLo = 60 ∧ Facts.C18.dcHi = 62 ∧
+    Facts.C18.hdrPlainLo = 0 ∧ Facts.C18.hdrPlainHi = 56 ∧ Facts.C18.hdrEncLo = 56 ∧ Facts.C18.hdrEncHi = 64 ∧
+    Facts.C18.hdrEncAt = 56 ∧ Facts.C18.headerLen = 64 ∧ Facts.C18.metaTagLo = 56 ∧ Facts.C18.metaTagHi = 60 ∧
+    Facts.C18.metaDCLo = 60 ∧ Facts.C18.metaDCHi = 62 ∧ Facts.C18.decryptInitIsReversed = true ∧
+    Facts.C18.acceptSwaps = true := by decide
+
+/-- `createStreams` in terms of `mid = init[8:56]` (all its ranges lie inside). -/
+def createStreamsMid (sha : Bytes → Bytes) (init secret : Bytes) : Except Err Keys :=
+  let mid := (init.drop 8).take 48
+  let encryptKey := mid.take 32
+  let encryptIV := (mid.drop 32).take 16
+  let initRev := mid.reverse
+  let decryptKey := initRev.take 32
+  let decryptIV := (initRev.drop 32).take 16
+  if secret.length > 0 then
+    if secret.length < 16 then .error .secretSize
+    else
+      let sec := secret.take 16
+      .ok { encrypt := ⟨sha (encryptKey ++ sec), encryptIV, 0⟩, decrypt := ⟨sha (decryptKey ++ sec), decryptIV, 0⟩ }
+  else .ok { encrypt := ⟨encryptKey, encryptIV, 0⟩, decrypt := ⟨decryptKey, decryptIV, 0⟩ }
+
+theorem createStreams_eq_mid (sha : Bytes → Bytes) (init secret : Bytes) :
+    createStreams sha init secret = createStreamsMid sha init secret := by
+  have h1 : slice init 8 40 = ((init.drop 8).take 48).take 32 := by
+    simp [slice, List.take_take]
+  have h2 : slice init 40 56 = (((init.drop 8).take 48).drop 32).take 16 := by
+    simp [slice, List.drop_take, List.take_take]
+  have h3 : slice init 8 56 = (init.drop 8).take 48 := rfl
+  have h4 : ∀ r : Bytes, slice r 0 32 = r.take 32 := fun r => by simp [slice]
+  have h5 : ∀ r : Bytes, slice r 32 48 = (r.drop 32).take 16 := fun r => rfl
+  have h6 : slice secret 0 16 = secret.take 16 := by simp [slice]
+  unfold createStreams createStreamsMid
+  simp only [Facts.C18.encKeyLo, Facts.C18.encKeyHi, Facts.C18.encIVLo, Facts.C18.encIVHi, Facts.C18.revLo,
+    Facts.C18.revHi, Facts.C18.decKeyLo, Facts.C18.decKeyHi, Facts.C18.decIVLo, Facts.C18.decIVHi,
+    Facts.C18.secretCutLo, Facts.C18.secretCutHi, Facts.C18.secretMin, Facts.C18.decryptInitIsReversed,
+    if_true, h1, h2, h3, h4, h5, h6]
+
+/-- `clientKeys` / `accept` with the byte ranges written out (what the regenerated ranges amount to). -/
+def clientKeysLit (X : Cipher) (sha : Bytes → Bytes) (init tag : Bytes) (dc : Int) (secret : Bytes) :
+    Except Err (Bytes × Keys) :=
+  match createStreams sha init secret with
+  | .error e => .error e
+  | .ok k =>
+    let init' := init.take 56 ++ tag ++ putDC dc ++ init.drop 62
+    let (encInit, enc') := k.encrypt.xor X init'
+    .ok (init'.take 56 ++ (encInit.drop 56).take 8, { k with encrypt := enc' })
+
+def acceptLit (X : Cipher) (sha : Bytes → Bytes) (header secret : Bytes) : Except Err (Meta × Keys) :=
+  if header.length < 64 then .error .short
+  else
+    let buf := header.take 64
+    match createStreams sha buf secret with
+    | .error e => .error e
+    | .ok k =>
+      let k' : Keys := { encrypt := k.decrypt, decrypt := k.encrypt }
+      let (decrypted, dec') := k'.decrypt.xor X buf
+      let proto := (decrypted.drop 56).take 4
+      let dcb := (decrypted.drop 60).take 2
+      .ok ({ protocol := proto, dc := (dcb.headD 0).toNat + 256 * ((dcb.drop 1).headD 0).toNat },
+           { k' with decrypt := dec' })
+
+theorem setAt_tag_dc (init tag : Bytes) (dc : Int) (hi : init.length = 64) (ht : tag.length = 4) :
+    setAt (setAt init 56 tag) 60 (putDC dc) = init.take 56 ++ tag ++ putDC dc ++ init.drop 62 := by
+  have h56 : (init.take 56).length = 56 := by simp only [List.length_take]; omega
+  have hd : (putDC dc).length = 2 := rfl
+  unfold setAt
+  rw [ht, hd]
+  have ha : (init.take 56 ++ tag ++ init.drop (56 + 4)).take 60 = init.take 56 ++ tag :=
+    List.take_left' (by simp only [List.length_append, h56, ht])
+  have hb : (init.take 56 ++ tag ++ init.drop (56 + 4)).drop (60 + 2) = init.drop 62 := by
+    have : (60 + 2 : Nat) = (init.take 56 ++ tag).length + 2 := by simp only [List.length_append, h56, ht]
+    rw [this, ← List.drop_drop, List.drop_left' rfl, List.drop_drop]
+  rw [ha, hb]
+
+theorem slice_zero (l : Bytes) (n : Nat) : slice l 0 n = l.take n := by simp [slice]
+
+theorem clientKeys_eq_lit (X : Cipher) (sha : Bytes → Bytes) (init tag : Bytes) (dc : Int) (secret : Bytes)
+    (hi : init.length = 64) (ht : tag.length = 4) :
+    clientKeys X sha init tag dc secret = clientKeysLit X sha init tag dc secret := by
+  unfold clientKeys clientKeysLit
+  simp only [Facts.C18.tagLo, Facts.C18.dcLo, Facts.C18.hdrPlainLo, Facts.C18.hdrPlainHi, Facts.C18.hdrEncLo,
+    Facts.C18.hdrEncHi, setAt_tag_dc init tag dc hi ht, slice_zero]
+  rfl
+
+theorem accept_eq_lit (X : Cipher) (sha : Bytes → Bytes) (header secret : Bytes) :
+    accept X sha header secret = acceptLit X sha header secret := by
+  unfold accept acceptLit
+  simp only [Facts.C18.headerLen, Facts.C18.metaTagLo, Facts.C18.metaTagHi, Facts.C18.metaDCLo, Facts.C18.metaDCHi,
+    Facts.C18.acceptSwaps, if_true]
+  rfl
+
 /-! ### The header -/
 
 theorem mid_of_prefix (a b : Bytes) (ha : a.length = 56) : ((a ++ b).drop 8).take 48 = (a.drop 8).take 48 := by
@@ -106,7 +203,8 @@ theorem mid_of_prefix (a b : Bytes) (ha : a.length = 56) : ((a ++ b).drop 8).tak
 
 theorem createStreams_mid (sha : Bytes → Bytes) (i j secret : Bytes)
     (h : (i.drop 8).take 48 = (j.drop 8).take 48) : createStreams sha i secret = createStreams sha j secret := by
-  unfold createStreams
+  rw [createStreams_eq_mid, createStreams_eq_mid]
+  unfold createStreamsMid
   rw [h]
 
 theorem generateInit_ok : ∀ (fuel : Nat) (tape init : Bytes), generateInit fuel tape = .ok init →
@@ -129,7 +227,8 @@ theorem generateInit_ok : ∀ (fuel : Nat) (tape init : Bytes), generateInit fue
 
 theorem createStreams_off (sha : Bytes → Bytes) (init secret : Bytes) (k : Keys)
     (h : createStreams sha init secret = .ok k) : k.encrypt.off = 0 ∧ k.decrypt.off = 0 := by
-  unfold createStreams at h
+  rw [createStreams_eq_mid] at h
+  unfold createStreamsMid at h
   simp only at h
   split at h
   · split at h
@@ -152,7 +251,9 @@ theorem accept_clientKeys (ks : Bytes → Bytes → Nat → UInt8) (sha : Bytes 
     header.length = 64 ∧ header.take 56 = init.take 56 ∧
     accept (xorWith ks) sha header secret
       = .ok (⟨tag, dc16 dc⟩, { encrypt := ck.decrypt, decrypt := ck.encrypt }) := by
-  unfold clientKeys at h
+  rw [clientKeys_eq_lit _ _ _ _ _ _ hi ht] at h
+  rw [accept_eq_lit]
+  unfold clientKeysLit at h
   cases hk : createStreams sha init secret with
   | error e => rw [hk] at h; simp at h
   | ok k =>
@@ -177,7 +278,7 @@ theorem accept_clientKeys (ks : Bytes → Bytes → Nat → UInt8) (sha : Bytes 
     obtain ⟨hh, hck⟩ := hhdr
     have hlen : header.length = 64 := by rw [hh]; simp [hP, hR]
     refine ⟨hlen, by rw [hh, List.take_left' hP], ?_⟩
-    unfold accept
+    unfold acceptLit
     have hnl : ¬ header.length < 64 := by omega
     simp only [hnl, if_false]
     have htk : header.take 64 = header := List.take_of_length_le (by omega)
